@@ -60,3 +60,14 @@ CONFIG['C08'] = dict(unit='iter', allowed=ITER_ALLOWED, assumptions=ITER_ASSUME,
     stubs=['Showdown::new (contracts/showdown_new.vc, proved in unit SHOWDOWN / C03)'],
     kinds=r'overflow|precondition|decreases|termination|recursion',
     search=[['iter-search', '{seed}', '{n}', '{marker}', 'c08']], search_n={'quick': 240, 'thorough': 2400})
+
+CONFIG['C16'] = dict(unit='scopes',
+    allowed=[r'^external_body pub fn raw_cut'],
+    assumptions=[
+        'raw_cut (the f32 sqrt/floor/%/ceil formula) is external_body with NO postcondition: the tiling theorem holds for any pair of u8 it returns; floats are not modelled at all',
+        'raw_cut\'s own freedom from u8 overflow/underflow (48 - turn_to, + turn_to + 1) depends on float behaviour and is NOT checked',
+        'precondition count >= 1 (the property\'s quantifier)',
+        'that a tiling scope list makes the per-thread results add up to the single-threaded result is C04 (chained scopes reproduce the full run)',
+    ],
+    samples=[{'obligation': 'calculate_scopes postcondition', 'clause': 'tiles(r@, count): len == count, first.from == (0,1), last.to == (48,49), every from/to a valid position or the terminal, from <=lex to, scope[k+1].from == scope[k].to'}],
+    search=[['scopes-search', '{seed}', '{n}']], search_n={'quick': 20000, 'thorough': 60000})
